@@ -56,6 +56,8 @@ def build_pool(seed, tier, registered):
     for t in list(chosen):
         if t['kind'] in NUMBERISH:
             work.append((t, 3))          # every number-ish query is also asked of another model of the same culture
+        if any(c != t['culture'] and c.split('-')[0] == t['culture'].split('-')[0] for (mt, c) in registered.get(t['kind'], ())):
+            work.append((t, 2))          # ... and every query of a language with two cultures, of a sibling culture
         if dec.choice('twin?', 2) == 0:
             work.append((t, dec.choice('twin-kind', 4)))
     for t, k in work:
@@ -78,6 +80,10 @@ def build_pool(seed, tier, registered):
             cults = [c for (mt, c) in registered[t['kind']] if c != t['culture']]
             if not cults:
                 continue
+            # sibling cultures of the same language share configuration classes (es-es / es-mx): prefer them half the time
+            sib = [c for c in cults if c.split('-')[0] == t['culture'].split('-')[0]]
+            if sib and dec.choice('sibling', 2):
+                cults = sib
             tw['culture'] = cults[dec.choice('dcult', len(cults))]
         tw['id'] = 'twin:' + t['id']
         tw = norm_tuple(tw)
@@ -350,7 +356,9 @@ def gen_plan(prop, run_seed, tier, ctx):
     elif sk == 1:
         sched = {'kind': 'walk', 'p': [1e-4, 3e-4, 1e-3, 3e-3][dec.choice('p-switch', 4)]}
     else:
-        sched = {'kind': 'rr', 'q': [30, 100, 300, 1000][dec.choice('quantum', 4)]}
+        # quantum 2-8 = lockstep: every other line is a switch — windows of a few lines between a write to shared
+        # state and its use (too short for any probe to steer into)
+        sched = {'kind': 'rr', 'q': [2, 8, 30, 100, 300, 1000][dec.choice('quantum', 6)]}
     dirty = None
     if not fault_free:
         dirty = {'stall': [0.0, 0.3, 0.6][dec.choice('dirty-stall-p', 3)] if enabled['stall'] or dec.choice('ds', 2) else 0.0,
@@ -431,13 +439,16 @@ def evict(scope, focus_cultures=None):
     (1-5 s each to rebuild) — the state 'restarted, date-time already requested again' — so that cold starts stay cheap."""
     cache = lib.cache_dict()
     gone = []
-    for k in list(cache):
-        if k.model_type != 'DateTimeModel' or (scope == 'full' and (not focus_cultures or k.culture in focus_cultures)):
-            gone.append(cache.pop(k))
-    barrier.on_evict(gone)
-    # a restart loses every process-wide table, not only the model cache: class-level / module-level containers of the
-    # library go back to their contents right after import (lazily filled tables start empty again)
-    RESTORED['n'] += barrier.restore_boot_state(skip=(cache,))
+    with barrier.quiet():
+        for k in list(cache):
+            if k.model_type != 'DateTimeModel' or (scope == 'full' and (not focus_cultures or k.culture in focus_cultures)):
+                m = cache.pop(k, None)
+                if m is not None:
+                    gone.append(m)
+        barrier.on_evict(gone)
+        # a restart loses every process-wide table, not only the model cache: class-level / module-level containers of
+        # the library go back to their contents right after import (lazily filled tables start empty again)
+        RESTORED['n'] += barrier.restore_boot_state(skip=(cache,))
 
 
 KIND_OF_MODEL_TYPE = {v[2]: k for k, v in lib.KINDS.items()}
@@ -456,7 +467,8 @@ def restore_cache(keys):
     started), untraced, so that step counts inside ops match the recording."""
     want = {tuple(k) for k in keys}
     cache = lib.cache_dict()
-    gone = [cache.pop(k) for k in list(cache) if tuple(_key_list(k)) not in want]
+    with barrier.quiet():
+        gone = [cache.pop(k) for k in list(cache) if tuple(_key_list(k)) not in want]
     if gone:
         barrier.on_evict(gone)
     have = {tuple(_key_list(k)) for k in cache}
@@ -502,6 +514,7 @@ class Env:
             barrier.on_cache_insert(model)
         ModelFactory.register_model_in_cache = register_model_in_cache
         self.n_barrier_classes = barrier.install()
+        self.n_tables = barrier.instrument_process_tables()
         self.n_boot_containers = barrier.snapshot_boot_state()
         self.installed = True
 
@@ -764,7 +777,7 @@ def run_batch(job):
            'barrier_sites': {}, 'ctor': {}, 'double_ctor': 0, 'placements': {}, 'threads': {}, 'capped': 0,
            'clock_reads_in_explicit_calls': 0, 'cold_runs': 0, 'restarts': 0, 'faulted_ops': 0, 'checked_ops': 0,
            'swallowed_abort': 0, 'dt_focus': sorted(ctx['dt_focus']), 'barrier_classes': env.n_barrier_classes,
-           'sched_kinds': {}, 'culture_classes': {}, 'get_outcomes': {}, 'observed_steps': {}, 'boot_containers': env.n_boot_containers}
+           'sched_kinds': {}, 'culture_classes': {}, 'get_outcomes': {}, 'observed_steps': {}, 'boot_containers': env.n_boot_containers, 'process_tables_instrumented': env.n_tables}
     est = ctx['step_estimate']
     for idx in range(job['first'], job['first'] + job['count']):
         run_seed = derive_seed(seed, prop, idx)
